@@ -133,8 +133,8 @@ def compute(f, loop_bound=2):
     try:
         a = anchors.resolve(f, table=out)
         out["anchors"] = a
-        ren = {"%s::%s(" % (a["ctx_short"], actual): "%s::%s(" % (a["ctx_short"], r) for actual, r in a["role_names"].items() if actual != r}
-        names = {"%s::%s" % (a["ctx_short"], actual): "%s::%s" % (a["ctx_short"], r) for actual, r in a["role_names"].items() if actual != r}
+        ren = {actual + "(": "EvalContext::%s(" % r for actual, r in a["role_callee"].items() if actual != "EvalContext::" + r}
+        names = {actual: "EvalContext::" + r for actual, r in a["role_callee"].items() if actual != "EvalContext::" + r}
     except Exception:
         ren, names = {}, {}
     if ren:
